@@ -174,6 +174,9 @@ var watchdog struct {
 	tier     Tier
 	tape     *Tape
 	replay   string // replay mode: path of the replay file being replayed
+	// a violation found and written out unshrunk; while the tape is being
+	// shrunk a stuck candidate must not turn the finding into harness trouble
+	pending []byte
 }
 
 // beat records progress of the current run.
@@ -217,8 +220,21 @@ func startWatchdog() {
 				}
 			}
 			if !dl.IsZero() && time.Now().After(dl) {
+				watchdog.Lock()
+				pend := watchdog.pending
+				watchdog.Unlock()
+				if out != nil && pend != nil {
+					// shrinking got stuck: report the violation with its unshrunk tape
+					out.Write(append(pend, '\n'))
+					db, _ := json.Marshal(workerLine{Kind: "done", Worker: w, Msg: "0"})
+					out.Write(append(db, '\n'))
+					if sp := os.Getenv("VERIF_STOP"); sp != "" {
+						os.WriteFile(sp, []byte("stop"), 0644)
+					}
+					os.Exit(0)
+				}
 				if out != nil {
-					b, _ := json.Marshal(workerLine{Kind: "harness", Worker: w, Msg: fmt.Sprintf("watchdog: run seed=%d exceeded its wall-clock limit", seed)})
+					b, _ := json.Marshal(workerLine{Kind: "harness", Worker: w, Msg: fmt.Sprintf("watchdog: run seed=%d exceeded its wall-clock limit (deadline %s, now %s)", seed, dl.Format("15:04:05.000"), time.Now().Format("15:04:05.000"))})
 					out.Write(append(b, '\n'))
 					buf := make([]byte, 1<<16)
 					n := runtime.Stack(buf, true)
@@ -316,7 +332,7 @@ func workerMain(t *testing.T, prop string) {
 		next = k + W
 		if os.Getenv("VERIF_DIAG") != "" {
 			if f, err := os.OpenFile(os.Getenv("VERIF_DIAG"), os.O_APPEND|os.O_CREATE|os.O_WRONLY, 0644); err == nil {
-				fmt.Fprintf(f, "DIAG run %d seed=%d goroutines=%d\n", done, seed, runtime.NumGoroutine())
+				fmt.Fprintf(f, "DIAG run %d seed=%d goroutines=%d at=%s\n", done, seed, runtime.NumGoroutine(), time.Now().Format("15:04:05.000"))
 				f.Close()
 			}
 		}
@@ -331,13 +347,31 @@ func workerMain(t *testing.T, prop string) {
 			v := res.Violations[0]
 			streams := tape.Streams()
 			before := countDraws(streams)
-			arm(seed, 10*time.Minute)
-			shrunk, cands := Shrink(t, rig, tier, seed, streams, v, known, 400, 90*time.Second)
+			path := filepath.Join(outRoot(), "replays", fmt.Sprintf("%s-%d.json", prop, seed))
+			os.MkdirAll(filepath.Dir(path), 0755)
+			if ub, err := json.MarshalIndent(&ReplayFile{Property: prop, Rig: rig.Name, Tier: tier, Seed: seed, Tape: streams, Violation: v, Shrunk: false, Trace: res.Sample}, "", " "); err == nil {
+				os.WriteFile(path, ub, 0644)
+				pl, _ := json.Marshal(workerLine{Kind: "violation", Worker: w, Res: res, Replay: path})
+				watchdog.Lock()
+				watchdog.pending = pl
+				watchdog.Unlock()
+			}
+			arm(seed, 4*time.Minute)
+			var shrunk map[string][]uint64
+			cands := 0
+			if os.Getenv("VERIF_NOSHRINK") != "" {
+				shrunk = streams
+			} else {
+				shrunk, cands = Shrink(t, rig, tier, seed, streams, v, known, 400, 90*time.Second)
+			}
 			disarm()
 			// final execution of the shrunk tape to record its own message/trace
 			arm(seed, runTimeout)
 			fin := Execute(t, rig, tier, ReplayTape(seed, shrunk), known)
 			disarm()
+			watchdog.Lock()
+			watchdog.pending = nil
+			watchdog.Unlock()
 			vv := v
 			for _, x := range fin.Violations {
 				if x.Class == v.Class && x.Key == v.Key {
@@ -346,8 +380,6 @@ func workerMain(t *testing.T, prop string) {
 			}
 			rf := &ReplayFile{Property: prop, Rig: rig.Name, Tier: tier, Seed: seed, Tape: shrunk, Violation: vv,
 				Shrunk: true, Cands: cands, DrawsFrom: before, DrawsTo: countDraws(shrunk), Trace: fin.Sample}
-			path := filepath.Join(outRoot(), "replays", fmt.Sprintf("%s-%d.json", prop, seed))
-			os.MkdirAll(filepath.Dir(path), 0755)
 			b, _ := json.MarshalIndent(rf, "", " ")
 			os.WriteFile(path, b, 0644)
 			emit(workerLine{Kind: "violation", Res: res, Replay: path})
